@@ -382,6 +382,47 @@ theorem rowmerge_schema_table_default (base ours theirs : Table) (msch : Schema)
     refine ⟨m', hf, by rw [e1, hsch], fun k => ?_⟩
     rw [e2, e3]; exact hk k
 
+/-- **merge_symmetric under a schema change**, up to the column permutation between the two result
+schemas: with the hypotheses of `rowmerge_schema_table` for both directions, merging theirs into
+ours and ours into theirs conflict on exactly the same keys, and every unconflicted key holds the
+same row as a map column id → cell (`RowsEqById`). -/
+theorem merge_symmetric_schema (base ours theirs : Table) (m1 m2 : Schema) (fl1 fl2 : Flags)
+    (tc : TypeConsistent base.sch ours.sch theirs.sch)
+    (hdo : idsDistinct ours.sch = true) (hdt : idsDistinct theirs.sch = true)
+    (hb : tableOk base = true) (ho : tableOk ours = true) (ht : tableOk theirs = true)
+    (hne1 : ours ≠ theirs) (hne2 : theirs ≠ base) (hne3 : ours ≠ base)
+    (hs1 : schemaMerge base.sch ours.sch theirs.sch = .ok (m1, fl1))
+    (hs2 : schemaMerge base.sch theirs.sch ours.sch = .ok (m2, fl2))
+    (na1 : ∀ k, NoRawByteAliasKey ⟨⟨base.sch, ours.sch, theirs.sch, m1, false⟩, fl1⟩
+      (get base.rows k) (get ours.rows k) (get theirs.rows k))
+    (na2 : ∀ k, NoRawByteAliasKey ⟨⟨base.sch, theirs.sch, ours.sch, m2, false⟩, fl2⟩
+      (get base.rows k) (get theirs.rows k) (get ours.rows k)) :
+    ∃ a b, mergeTable base ours theirs = .ok a ∧ mergeTable base theirs ours = .ok b ∧
+      a.sch = m1 ∧ b.sch = m2 ∧
+      ∀ k, (k ∈ a.conflicts ↔ k ∈ b.conflicts) ∧
+        (k ∉ a.conflicts → RowsEqById m1 m2 (get a.rows k) (get b.rows k)) := by
+  obtain ⟨a, ha, hsa, hka⟩ := rowmerge_schema_table_default base ours theirs m1 fl1 tc hdo hdt hb ho ht
+    hne1 hne2 hne3 hs1 na1
+  obtain ⟨b, hb', hsb, hkb⟩ := rowmerge_schema_table_default base theirs ours m2 fl2 tc.swap hdt hdo hb ht ho
+    (fun e => hne1 e.symm) hne3 hne2 hs2 na2
+  have hids : ∀ id, findCol m1 id ≠ none ↔ findCol m2 id ≠ none := fun id =>
+    ⟨schemaMerge_ids_symm _ _ _ m1 m2 fl1 fl2 tc hs1 hs2 id,
+     schemaMerge_ids_symm _ _ _ m2 m1 fl2 fl1 tc.swap hs2 hs1 id⟩
+  refine ⟨a, b, ha, hb', hsa, hsb, fun k => ?_⟩
+  have ea := hka k
+  have eb := hkb k
+  obtain ⟨s1, s2⟩ := specSchemaKey_swap base.sch ours.sch theirs.sch m1 m2 fl1 fl2 hids
+    (get base.rows k) (get ours.rows k) (get theirs.rows k)
+  simp only [Prod.ext_iff] at ea eb
+  constructor
+  · have : decide (k ∈ a.conflicts) = decide (k ∈ b.conflicts) := by rw [ea.2, eb.2, s1]
+    simpa using this
+  · intro hn
+    have hf : (specSchemaKey ⟨⟨base.sch, ours.sch, theirs.sch, m1, false⟩, fl1⟩
+        (get base.rows k) (get ours.rows k) (get theirs.rows k)).2 = false := by
+      rw [← ea.2]; simpa using hn
+    rw [ea.1, eb.1]; exact s2 hf
+
 /-- non-vacuity: ours drops column 1 and edits column 2, theirs edits column 3 of the same row —
 the specification combines the cells in the result schema (2, 3) -/
 example :
